@@ -18,9 +18,15 @@ PROPS = {
         "assumptions": ["goroutine ids distinct", "arguments well-formed (a too-large '_' argument carries no value/pointer flag/name), which the parser establishes"],
     },
     "C09": {
-        "lean": ["PP.Props.C09", "PP.Tie.Reader"],
-        "what": "Reader delivery independence: readAll_spec / readAll_delivery_indep for every capacity N>0, every schedule with zero-read runs below the retry bound, EOF with or after data; harness: same stream under several schedules on the implementation, exhaustive chunkings of short inputs, model correspondence.",
+        "lean": ["PP.Props.C09", "PP.Props.C09b", "PP.Tie.Reader"],
+        "what": "Reader delivery independence: readAll_spec / readAll_delivery_indep for every capacity N>0, every schedule with zero-read runs below the retry bound, EOF with or after data; scanSnapshot_eq_L / scan_delivery_indep: the whole ScanSnapshot outcome (snapshot, forwarded bytes, error, remainder++unread) is a function of the bytes and the terminal error only; harness: same stream under several schedules on the implementation, exhaustive chunkings of short inputs, model correspondence.",
         "trusted": ["io.Reader contract: 0 <= n <= len(p)"],
+    },
+    "C02": {
+        "lean": ["PP.Props.C02", "PP.Props.C09b", "PP.Tie.Scan", "PP.Tie.Reader"],
+        "what": "Stream conservation: conservation / conservation_stream (processed lines in order ++ what is handed back = the input, for every scanner state, including panics), trace_agrees, forwarded_only_while_looking, no_forward_after_dump_started, trace_shape / trace_split (the only withheld line ever followed by forwarded text is a lone race separator = known finding K1), no_dump_identity (a stream without header or separator lines is reproduced identically), blank_consumed_states / no_two_blank (at most one blank separator line is withheld); K1_lone_separator_lost refutes the naive full statement on the known-finding witness; transported to every delivery by scanSnapshot_eq_L; harness: conservation oracle on every ScanSnapshot call, repeated scanning, and the command's process() end to end.",
+        "partial": "the literal sentence 'an input without any dump is reproduced identically' is false of the code for inputs containing a lone '==================' line (known finding K1, pinned by the repository's tests RaceHdr2Err..4Err); the theorems carve exactly that case out. The prefix writer is modelled as infallible.",
+        "trusted": ["io.Writer never fails (writer errors are outside the property)", "io.MultiReader(suffix, rest) delivers suffix then rest (used by the resume protocol)"],
     },
     "C13": {
         "lean": ["PP.Props.C13", "PP.Tie.Agg"],
